@@ -10,7 +10,7 @@ CONSTANTS
   MaxDims = 1
   MaxSteps = 7
   MaxGen = 0
-  EmitActs = {"Create", "CreateBad", "Delete", "DeleteAbsent", "AddLink", "RemoveLink", "SetOne", "SetAttr", "SetType", "SetDef", "AppendDim", "DeleteDims", "Flush", "Close", "Open"}
+  EmitActs = {"Create", "CreateBad", "Delete", "DeleteAbsent", "AddLink", "RemoveLink", "SetLinks", "SetOne", "SetAttr", "SetType", "SetDef", "AppendDim", "DeleteDims", "Flush", "Close", "Open"}
   EmitRes = "any"
   EmitWhen = "ro"
 INVARIANTS TypeOK NamesUniqueInv OrderInv NoDanglingInv EidsFresh SearchEqualsBruteForce BreadthFirst BackRefsEqualBruteForce
